@@ -39,14 +39,35 @@ type Opts struct {
 	// SolidUnion2: operands of a 2D union are drawn without difference / intersection / cut, so that no
 	// operand can be empty (excludes the known finding Union2D:pruned-value-overestimates by construction)
 	SolidUnion2 bool
+	// UniformRoot: the root operator is drawn uniformly from the grammar's operator list (rapid's own
+	// SampledFrom favours the front of the list and "leaf" entries), so that every constructor is the
+	// outermost one - the one whose box and mapping a caller sees directly - equally often
+	UniformRoot bool
 	solid       bool
 	inUnion2    bool // generating an operand of a 2D union (incl. Multi2D/LineOf2D): no blends below it
 }
 
 type gen struct {
-	t *rapid.T
-	o Opts
-	c int
+	t      *rapid.T
+	o      Opts
+	c      int
+	rooted bool
+}
+
+// uniformOp picks an operator (not "leaf") with equal probability: the index is taken from the
+// high bits of a 64-bit draw, which rapid does not bias towards small values the way it does IntRange.
+func (x *gen) uniformOp(label string, ops []string) string {
+	var distinct []string
+	seen := map[string]bool{"leaf": true}
+	for _, o := range ops {
+		if !seen[o] {
+			seen[o] = true
+			distinct = append(distinct, o)
+		}
+	}
+	u := rapid.Uint64().Draw(x.t, x.lbl(label))
+	u = (u ^ (u >> 31)) * 0x9e3779b97f4a7c15
+	return distinct[(u>>33)%uint64(len(distinct))]
 }
 
 func (x *gen) lbl(s string) string { x.c++; return fmt.Sprintf("%s#%d", s, x.c) }
@@ -312,6 +333,10 @@ func (x *gen) node3(depth int) *Node {
 		ops = ops3Full
 	}
 	op := x.pick("op3", ops)
+	if x.o.UniformRoot && !x.rooted {
+		op = x.uniformOp("root3", ops)
+	}
+	x.rooted = true
 	S := x.o.S
 	switch op {
 	case "leaf":
@@ -389,6 +414,9 @@ func (x *gen) node3(depth int) *Node {
 		if x.o.Grammar == Lipschitz || x.intr("sym", 0, 1) == 1 {
 			m := &Node{Op: "xform3", K: []*Node{k}, I: []int{2, 0}, P: []float64{0, 0, 1, 0, 0, 0, 0}}
 			k = &Node{Op: "union3", K: []*Node{k, m}}
+		} else if x.intr("off-axis", 0, 1) == 1 {
+			// anywhere in the plane (an operand whose box is lopsided about the sector axis)
+			k.P[5] = x.coord("ty", 1.5)
 		}
 		return &Node{Op: "rotcopy3", K: []*Node{k}, I: []int{n}}
 	case "rotunion3":
@@ -539,6 +567,10 @@ func (x *gen) node2(depth int) *Node {
 		ops = ops2Solid
 	}
 	op := x.pick("op2", ops)
+	if x.o.UniformRoot && !x.rooted {
+		op = x.uniformOp("root2", ops)
+	}
+	x.rooted = true
 	S := x.o.S
 	switch op {
 	case "leaf":
@@ -599,6 +631,8 @@ func (x *gen) node2(depth int) *Node {
 		if x.o.Grammar == Lipschitz || x.intr("sym", 0, 1) == 1 {
 			m := &Node{Op: "xform2", K: []*Node{k}, I: []int{1}, P: []float64{0, 0, 0}}
 			k = &Node{Op: "union2", K: []*Node{k, m}}
+		} else if x.intr("off-axis", 0, 1) == 1 {
+			k.P[2] = x.coord("ty", 1.5)
 		}
 		return &Node{Op: "rotcopy2", K: []*Node{k}, I: []int{n}}
 	case "rotunion2":
